@@ -351,3 +351,116 @@ package keeper
 //@ ensures [only-deletes] forall key bytes :: S[key] == old(S[key]) || S[key] == bnil
 //@ ensures [same-consumer] forall c string, a types.ConsumerConsAddress :: c != consumerId ==> S[types.ValidatorsByConsumerAddrKey(c, a)] == old(S[types.ValidatorsByConsumerAddrKey(c, a)])
 //@ ensures [no-deps] E == old(E) && X == old(X)
+
+// ---------------------------------------------------------------- per-consumer list deleters (C11 erased, C13 isolation)
+
+//@ func Keeper.DeleteAllOptedIn
+//@ let pfx := types.StringIdWithLenKey(types.OptedInKeyPrefix(), consumerId)
+//@ loop 1 invariant [collect] len(keysToDel) == iterator.pos && 0 <= iterator.pos && iterator.pos <= iterator.n && (forall j int :: 0 <= j && j < len(keysToDel) ==> keysToDel[j] == iterator.key(j))
+//@ loop 2 invariant [idx] 0 <= _i && _i <= len(keysToDel)
+//@ loop 2 invariant [deleted] forall j int :: 0 <= j && j < _i ==> S[keysToDel[j]] == bnil
+//@ loop 2 invariant [frame] forall key bytes :: !bpre(pfx, key) ==> S[key] == old(S[key])
+//@ loop 2 invariant [only-deletes] forall key bytes :: S[key] == old(S[key]) || S[key] == bnil
+//@ loop 2 invariant [deps] E == old(E) && X == old(X)
+//@ ensures [erased] forall key bytes :: bpre(pfx, key) ==> S[key] == bnil
+//@ ensures [frame] forall key bytes :: !bpre(pfx, key) ==> S[key] == old(S[key])
+//@ ensures [no-deps] E == old(E) && X == old(X)
+
+//@ func Keeper.DeleteAllowlist
+//@ let pfx := types.StringIdWithLenKey(types.AllowlistKeyPrefix(), consumerId)
+//@ loop 1 invariant [collect] len(keysToDel) == iterator.pos && 0 <= iterator.pos && iterator.pos <= iterator.n && (forall j int :: 0 <= j && j < len(keysToDel) ==> keysToDel[j] == iterator.key(j))
+//@ loop 2 invariant [idx] 0 <= _i && _i <= len(keysToDel)
+//@ loop 2 invariant [deleted] forall j int :: 0 <= j && j < _i ==> S[keysToDel[j]] == bnil
+//@ loop 2 invariant [frame] forall key bytes :: !bpre(pfx, key) ==> S[key] == old(S[key])
+//@ loop 2 invariant [only-deletes] forall key bytes :: S[key] == old(S[key]) || S[key] == bnil
+//@ loop 2 invariant [deps] E == old(E) && X == old(X)
+//@ ensures [erased] forall key bytes :: bpre(pfx, key) ==> S[key] == bnil
+//@ ensures [frame] forall key bytes :: !bpre(pfx, key) ==> S[key] == old(S[key])
+//@ ensures [no-deps] E == old(E) && X == old(X)
+
+//@ func Keeper.DeleteDenylist
+//@ let pfx := types.StringIdWithLenKey(types.DenylistKeyPrefix(), consumerId)
+//@ loop 1 invariant [collect] len(keysToDel) == iterator.pos && 0 <= iterator.pos && iterator.pos <= iterator.n && (forall j int :: 0 <= j && j < len(keysToDel) ==> keysToDel[j] == iterator.key(j))
+//@ loop 2 invariant [idx] 0 <= _i && _i <= len(keysToDel)
+//@ loop 2 invariant [deleted] forall j int :: 0 <= j && j < _i ==> S[keysToDel[j]] == bnil
+//@ loop 2 invariant [frame] forall key bytes :: !bpre(pfx, key) ==> S[key] == old(S[key])
+//@ loop 2 invariant [only-deletes] forall key bytes :: S[key] == old(S[key]) || S[key] == bnil
+//@ loop 2 invariant [deps] E == old(E) && X == old(X)
+//@ ensures [erased] forall key bytes :: bpre(pfx, key) ==> S[key] == bnil
+//@ ensures [frame] forall key bytes :: !bpre(pfx, key) ==> S[key] == old(S[key])
+//@ ensures [no-deps] E == old(E) && X == old(X)
+
+//@ func Keeper.DeletePrioritylist
+//@ let pfx := types.StringIdWithLenKey(types.PrioritylistKeyPrefix(), consumerId)
+//@ loop 1 invariant [collect] len(keysToDel) == iterator.pos && 0 <= iterator.pos && iterator.pos <= iterator.n && (forall j int :: 0 <= j && j < len(keysToDel) ==> keysToDel[j] == iterator.key(j))
+//@ loop 2 invariant [idx] 0 <= _i && _i <= len(keysToDel)
+//@ loop 2 invariant [deleted] forall j int :: 0 <= j && j < _i ==> S[keysToDel[j]] == bnil
+//@ loop 2 invariant [frame] forall key bytes :: !bpre(pfx, key) ==> S[key] == old(S[key])
+//@ loop 2 invariant [only-deletes] forall key bytes :: S[key] == old(S[key]) || S[key] == bnil
+//@ loop 2 invariant [deps] E == old(E) && X == old(X)
+//@ ensures [erased] forall key bytes :: bpre(pfx, key) ==> S[key] == bnil
+//@ ensures [frame] forall key bytes :: !bpre(pfx, key) ==> S[key] == old(S[key])
+//@ ensures [no-deps] E == old(E) && X == old(X)
+
+//@ func Keeper.setValSet
+//@ requires blen(prefix) >= 1
+//@ loop 1 invariant [idx] 0 <= _i && _i <= len(nextValidators)
+//@ loop 1 invariant [frame] forall key bytes :: !bpre(prefix, key) ==> S[key] == old(S[key])
+//@ loop 1 invariant [only-listed] forall key bytes :: bpre(prefix, key) && S[key] != bnil ==> exists j int :: 0 <= j && j < _i && key == GetValidatorKey(prefix, types.NewProviderConsAddress(nextValidators[j].ProviderConsAddr))
+//@ loop 1 invariant [present] forall j int :: 0 <= j && j < _i ==> S[GetValidatorKey(prefix, types.NewProviderConsAddress(nextValidators[j].ProviderConsAddr))] != bnil
+//@ loop 1 invariant [deps] E == old(E) && X == old(X)
+//@ ensures [frame] forall key bytes :: !bpre(prefix, key) ==> S[key] == old(S[key])
+//@ ensures [present] result == nil ==> forall j int :: 0 <= j && j < len(nextValidators) ==> S[GetValidatorKey(prefix, types.NewProviderConsAddress(nextValidators[j].ProviderConsAddr))] != bnil
+//@ ensures [only-listed] result == nil ==> forall key bytes :: bpre(prefix, key) && S[key] != bnil ==> exists j int :: 0 <= j && j < len(nextValidators) && key == GetValidatorKey(prefix, types.NewProviderConsAddress(nextValidators[j].ProviderConsAddr))
+//@ ensures [no-deps] E == old(E) && X == old(X)
+
+//@ func Keeper.getValSet pure
+//@ ensures [frame] S == old(S) && E == old(E) && X == old(X)
+
+// ---------------------------------------------------------------- computing and queueing validator-set updates (C01, C02, C03, C08, C11, C12)
+
+//@ func Keeper.ComputeMinPowerInTopN pure
+//@ ensures [frame] S == old(S) && E == old(E) && X == old(X)
+
+//@ func DiffValidators pure
+
+//@ func Keeper.ComputeNextValidators pure
+//@ ensures [frame] S == old(S) && E == old(E) && X == old(X)
+
+//@ const FamMinPower = fam(types.MinimumPowerInTopNKey(""))
+//@ const FamOptedIn = fam(types.OptedInKey("", types.NewProviderConsAddress(nil)))
+//@ const FamValSet = fam(types.ConsumerValidatorKey("", nil))
+
+//@ func Keeper.ComputeConsumerNextValSet
+//@ let psp := old(k.GetConsumerPowerShapingParameters(ctx, consumerId))
+//@ let m := old(k.ComputeMinPowerInTopN(ctx, activeValidators, psp.0.Top_N))
+//@ ensures [no-psp] psp.1 != nil ==> result1 != nil && S == old(S)
+//@ ensures [threshold] result1 == nil && psp.0.Top_N > 0 ==> k.GetMinimumPowerInTopN(ctx, consumerId).1 && k.GetMinimumPowerInTopN(ctx, consumerId).0 == m.0 && m.1 == nil
+//@ ensures [threshold-arg] result1 == nil && psp.0.Top_N > 0 ==> $OptInTopNValidators.called && $OptInTopNValidators.minPowerToOptIn == m.0 && $OptInTopNValidators.consumerId == consumerId
+//@ ensures [next-args] result1 == nil ==> $ComputeNextValidators.called && $ComputeNextValidators.consumerId == consumerId && $ComputeNextValidators.powerShapingParameters == psp.0 && $ComputeNextValidators.minPowerToOptIn == (psp.0.Top_N > 0 ? m.0 : 0)
+//@ ensures [stored-args] result1 == nil ==> $SetConsumerValSet.called && $SetConsumerValSet.consumerId == consumerId
+//@ ensures [diff] result1 == nil ==> $DiffValidators.called && result0 == $DiffValidators.ret
+//@ ensures [frame] forall key bytes :: fam(key) != FamMinPower && fam(key) != FamOptedIn && fam(key) != FamValSet ==> S[key] == old(S[key])
+//@ ensures [other-consumers] forall c string, p types.ProviderConsAddress :: c != consumerId ==> S[types.OptedInKey(c, p)] == old(S[types.OptedInKey(c, p)]) && S[types.ConsumerValidatorKey(c, p.ToSdkConsAddr())] == old(S[types.ConsumerValidatorKey(c, p.ToSdkConsAddr())]) && S[types.MinimumPowerInTopNKey(c)] == old(S[types.MinimumPowerInTopNKey(c)])
+//@ ensures [no-deps] E == old(E) && X == old(X)
+
+//@ func Keeper.GetAllConsumersWithIBCClients pure
+//@ ensures [frame] S == old(S) && E == old(E) && X == old(X)
+
+//@ func Keeper.QueueVSCPackets
+//@ let id0 := old(k.GetValidatorSetUpdateId(ctx))
+//@ loop 1 invariant [id] k.GetValidatorSetUpdateId(ctx) == id0 && valUpdateID == id0
+//@ loop 1 invariant [phases] forall c string :: k.GetConsumerPhase(ctx, c) == old(k.GetConsumerPhase(ctx, c))
+//@ loop 1 invariant [launched-only] forall c string, p types.ProviderConsAddress :: old(k.GetConsumerPhase(ctx, c)) != providertypes.CONSUMER_PHASE_LAUNCHED ==> S[providertypes.PendingVSCsKey(c)] == old(S[providertypes.PendingVSCsKey(c)]) && S[providertypes.SlashAcksKey(c)] == old(S[providertypes.SlashAcksKey(c)]) && S[providertypes.OptedInKey(c, p)] == old(S[providertypes.OptedInKey(c, p)]) && S[providertypes.ConsumerValidatorKey(c, p.ToSdkConsAddr())] == old(S[providertypes.ConsumerValidatorKey(c, p.ToSdkConsAddr())]) && S[providertypes.MinimumPowerInTopNKey(c)] == old(S[providertypes.MinimumPowerInTopNKey(c)])
+//@ loop 1 invariant [fifo] forall c string :: len(k.GetPendingVSCPackets(ctx, c)) >= len(old(k.GetPendingVSCPackets(ctx, c))) && (forall j int :: 0 <= j && j < len(old(k.GetPendingVSCPackets(ctx, c))) ==> k.GetPendingVSCPackets(ctx, c)[j] == old(k.GetPendingVSCPackets(ctx, c))[j])
+//@ loop 1 invariant [stamp] forall c string, j int :: len(old(k.GetPendingVSCPackets(ctx, c))) <= j && j < len(k.GetPendingVSCPackets(ctx, c)) ==> k.GetPendingVSCPackets(ctx, c)[j].ValsetUpdateId == id0
+//@ loop 1 invariant [at-most-one] forall c string :: len(k.GetPendingVSCPackets(ctx, c)) <= len(old(k.GetPendingVSCPackets(ctx, c))) + 1
+//@ loop 1 invariant [acks-kept-or-sent] forall c string :: S[providertypes.SlashAcksKey(c)] == old(S[providertypes.SlashAcksKey(c)]) || (S[providertypes.SlashAcksKey(c)] == bnil && len(k.GetPendingVSCPackets(ctx, c)) == len(old(k.GetPendingVSCPackets(ctx, c))) + 1 && k.GetPendingVSCPackets(ctx, c)[len(old(k.GetPendingVSCPackets(ctx, c)))].SlashAcks == old(k.GetSlashAcks(ctx, c)))
+//@ loop 1 invariant [deps] E == old(E) && X == old(X)
+//@ ensures [inc] result == nil ==> k.GetValidatorSetUpdateId(ctx) == id0 + 1
+//@ ensures [launched-only] forall c string, p types.ProviderConsAddress :: old(k.GetConsumerPhase(ctx, c)) != providertypes.CONSUMER_PHASE_LAUNCHED ==> S[providertypes.PendingVSCsKey(c)] == old(S[providertypes.PendingVSCsKey(c)]) && S[providertypes.SlashAcksKey(c)] == old(S[providertypes.SlashAcksKey(c)]) && S[providertypes.OptedInKey(c, p)] == old(S[providertypes.OptedInKey(c, p)]) && S[providertypes.ConsumerValidatorKey(c, p.ToSdkConsAddr())] == old(S[providertypes.ConsumerValidatorKey(c, p.ToSdkConsAddr())]) && S[providertypes.MinimumPowerInTopNKey(c)] == old(S[providertypes.MinimumPowerInTopNKey(c)])
+//@ ensures [fifo] forall c string :: len(k.GetPendingVSCPackets(ctx, c)) >= len(old(k.GetPendingVSCPackets(ctx, c))) && (forall j int :: 0 <= j && j < len(old(k.GetPendingVSCPackets(ctx, c))) ==> k.GetPendingVSCPackets(ctx, c)[j] == old(k.GetPendingVSCPackets(ctx, c))[j])
+//@ ensures [stamp] forall c string, j int :: len(old(k.GetPendingVSCPackets(ctx, c))) <= j && j < len(k.GetPendingVSCPackets(ctx, c)) ==> k.GetPendingVSCPackets(ctx, c)[j].ValsetUpdateId == id0
+//@ ensures [at-most-one] forall c string :: len(k.GetPendingVSCPackets(ctx, c)) <= len(old(k.GetPendingVSCPackets(ctx, c))) + 1
+//@ ensures [acks-kept-or-sent] forall c string :: S[providertypes.SlashAcksKey(c)] == old(S[providertypes.SlashAcksKey(c)]) || (S[providertypes.SlashAcksKey(c)] == bnil && len(k.GetPendingVSCPackets(ctx, c)) == len(old(k.GetPendingVSCPackets(ctx, c))) + 1 && k.GetPendingVSCPackets(ctx, c)[len(old(k.GetPendingVSCPackets(ctx, c)))].SlashAcks == old(k.GetSlashAcks(ctx, c)))
+//@ ensures [no-send] E == old(E) && X == old(X)
